@@ -15,6 +15,7 @@ class _RT:
     fstr = staticmethod(core.fstr)
     fval = staticmethod(core.fval)
     rt_get = staticmethod(core.rt_get)
+    rt_set = staticmethod(core.rt_set)
     rt_len = staticmethod(core.rt_len)
     rt_range = staticmethod(core.rt_range)
     rt_enumerate = staticmethod(core.rt_enumerate)
@@ -73,6 +74,8 @@ class Rewriter(ast.NodeTransformer):
         if isinstance(f, ast.Name):
             if f.id == "len" and len(node.args) == 1:
                 return ast.Call(func=_rt("rt_len"), args=node.args, keywords=[])
+            if f.id == "set" and len(node.args) <= 1 and not node.keywords:
+                return ast.Call(func=_rt("rt_set"), args=node.args, keywords=[])
             if f.id in ("enumerate", "range", "getattr", "print", "isinstance"):
                 return ast.Call(func=_rt("rt_" + f.id), args=node.args, keywords=node.keywords)
         root = f
